@@ -345,13 +345,8 @@ def cases_for_graph(ctx, a, rng, name='', simple=True, ks=None, funcs=('tri', 'c
         for k in (ks if ks is not None else range(2, n + 2)):
             impl = _call(lambda: 'ok %d' % count_cliques(a, k))
             run = 'c11.cliques %s %d' % (g, k)
-            if not symmetric and k >= 2:
-                # on a non-symmetric matrix the count depends on how argsort orders equal core values: the model is
-                # run with the permutation numpy returns
-                core = _call(lambda: get_core_decomposition(a))
-                run = None if isinstance(core, str) else 'c11.cliques_with %s %d %s' % (g, k, enc_list(np.argsort(core)))
             spec = None
-            if impl.startswith('ok ') and symmetric:
+            if impl.startswith('ok '):
                 spec = 'c11.spec_cliques %s %d %s' % (sp, k, impl[3:])
             elif simple and k >= 2 and not impl.startswith('ok '):
                 spec = REFUSED
